@@ -56,7 +56,7 @@ title_char = st.one_of(
     st.characters(whitelist_categories=("Lu", "Ll", "Lo", "Nd"), max_codepoint=0x2FFFF),
 )
 image_char = st.one_of(
-    st.sampled_from(list("abcxyzABCXYZ0123456789 -.~") + ["é", "ß", "ö", "日", "я", "ł"]),
+    st.sampled_from(list("abcsfixyzABCKXYZ0123456789 -.~") + ["é", "ß", "ö", "日", "я", "ł"]),
     st.characters(whitelist_categories=("Lu", "Ll", "Lo"), max_codepoint=0x2FFFF),
 )
 
@@ -110,7 +110,8 @@ def cases(draw):
     si, h, names = site(lang)
     used = set()
     titles = []
-    revid = [100]
+    # revision ids cross digit-count boundaries (98 -> 104, 999999999 -> 1000000000): numeric vs textual order differ there
+    revid = [draw(st.sampled_from([100, 100, 1, 7, 80, 95, 970, 9990, 99980, 999999970, 2 ** 31 - 60]))]
 
     def fresh_title(ns, chars=title_char, ext=""):
         for _ in range(5):
@@ -169,9 +170,29 @@ def cases(draw):
                 tp = h.splitname(tfull, 0)[1]
                 images.append(dict(title=tfull, partial=tp, data="img:" + tfull, twin=True,
                                    spellings=[list(draw(spelling(lang, 6, tp, image=True))) for _ in range(2)]))
+    # compatibility twins: a second, distinct image title that differs only by a compatibility variant of one letter
+    # (long s, fullwidth letter, ligature, Kelvin sign, superscript digit) or by the case of a later letter
+    for im in list(images):
+        if im.get("twin") or draw(st.integers(0, 2)):
+            continue
+        partial = im["partial"]
+        cands = [(k, COMPAT[c]) for k, c in enumerate(partial) if c in COMPAT and k > 0]
+        cands += [(k, c.swapcase()) for k, c in enumerate(partial) if k > 0 and c.isalpha() and c.isascii()]
+        if not cands:
+            continue
+        k, rep = draw(st.sampled_from(cands))
+        twin = partial[:k] + rep + partial[k + 1:]
+        tfull = h.splitname(twin, 6)[2]
+        if tfull.lower() not in used and tfull != im["title"] and h.splitname(tfull, 0)[2] == tfull:
+            used.add(tfull.lower())
+            tp = h.splitname(tfull, 0)[1]
+            images.append(dict(title=tfull, partial=tp, data="img:" + tfull, twin=True, compat_twin=True,
+                               spellings=[list(draw(spelling(lang, 6, tp, image=True))) for _ in range(2)]))
     return dict(lang=lang, pages=pages, writes=[list(w) for w in writes], redirects=redirects, images=images)
 
 
+COMPAT = {"s": "\u017f", "A": "\uff21", "a": "\uff41", "K": "\u212a", "i": "\u2170", "2": "\u00b2", "1": "\u00b9", "f": "\uff46", "o": "\u00ba",
+          "e": "\uff45", "T": "\uff34", "x": "\u2179", "c": "\u217d", "d": "\u217e", "m": "\u217f", "l": "\u217c", "v": "\u2174"}
 KF_PREFIX = "format:text-starts-with-record-separator-tail"
 
 
@@ -331,8 +352,13 @@ def run_shard(ctx):
             labels.append("image")
         if nonascii:
             labels.append("image:non-ascii")
-        if any(im.get("twin") for im in case["images"]):
+        if any(im.get("twin") and not im.get("compat_twin") for im in case["images"]):
             labels.append("image:escape-twin")
+        if any(im.get("compat_twin") for im in case["images"]):
+            labels.append("image:compat-twin")
+        ids = [r["revid"] for p in case["pages"] for r in p["revs"] if r["revid"] is not None]
+        if len({len(str(i)) for i in ids}) > 1:
+            labels.append("revids-of-different-length")
         if any(r["revid"] is None for p in case["pages"] for r in p["revs"]):
             labels.append("revision-less")
         if len(case["writes"]) > sum(len(p["revs"]) for p in case["pages"]):
